@@ -81,11 +81,23 @@ class C(B):
     def f(self, a, b=1):
         pass
     a = 1
+class D(C, B):
+    pass
+def dec1(f): return f
+def dec2(f): return f
+@dec1
+@dec2(1)
+def h(y):
+    pass
 '''
-NAMES = ["m", "m.B", "m.B.f", "m.B.a", "m.g", "m.v", "n", "n.C", "n.C.f", "n.C.a"]
-PARENT = [None, 0, 1, 1, 0, 0, None, 6, 7, 7]
+NAMES = ["m", "m.B", "m.B.f", "m.B.a", "m.g", "m.v", "n", "n.C", "n.C.f", "n.C.a", "n.D", "n.h"]
+PARENT = [None, 0, 1, 1, 0, 0, None, 6, 7, 7, 6, 6]
 INHERITED = {8: [2], 9: [3]}
-MODULE_OF = [0, 0, 0, 0, 0, 0, 6, 6, 6, 6]
+MODULE_OF = [0, 0, 0, 0, 0, 0, 6, 6, 6, 6, 6, 6]
+ATTRS = (3, 5, 9)          # Attribute objects (all have an inferred annotation and a value)
+FUNCS = (2, 4, 8, 11)
+SEC_NAMES = {"docstring": 0, "annotation": 1, "rendering of constant": 2, "signature": 3,
+             "rendering of class signature": 4, "rendering of decorators": 5}
 KINDS = {0: "Module", 1: "Class", 2: "Function", 3: "Attribute", 8: "Function inheriting the docstring of m.B.f (other module)"}
 XS = (0, 1, 2, 3, 8)
 
@@ -135,6 +147,19 @@ class World:
         self.system = s
         self.objs = [s.allobjects[n] for n in NAMES]
         self.ids = {n: i for i, n in enumerate(NAMES)}
+        # the model takes `parent` and the docsources order as parameters: tie them to the real objects
+        self.param_mismatch: List[str] = []
+        for i, o in enumerate(self.objs):
+            par = None if o.parent is None else self.ids.get(o.parent.fullName())
+            if par != PARENT[i]:
+                self.param_mismatch.append("parent of %s is %r, the harness assumes %r" % (NAMES[i], par, PARENT[i]))
+            src = [self.ids.get(d.fullName()) for d in o.docsources()]
+            if src != [i] + INHERITED.get(i, []):
+                self.param_mismatch.append("docsources of %s are %r, the harness assumes %r" % (NAMES[i], src, [i] + INHERITED.get(i, [])))
+        self.signatures = {i: self.objs[i].signature for i in FUNCS}
+        self.node_stubs: Dict[int, int] = {}
+        self.sig_now: Optional[str] = None
+        self.stan_log: List[Any] = []
         self.reports: List[Tuple[int, str, str, int]] = []
         self.field_log: List[Any] = []
         self.field_bodies: List[Any] = []
@@ -163,6 +188,10 @@ class World:
             # 'u': a name that is no parser — a missing module (ImportError) or, for module n, an existing markup
             # module without get_parser (AttributeError, handled since 3d65cd1)
             self.objs[mi].docformat = None if f is None else ("doctest" if f == "u" and mi == 6 else FMT_OF[f])
+        for i in FUNCS:
+            self.objs[i].signature = self.signatures[i]
+        self.node_stubs = {}
+        self.sig_now = None
         self.reports = []
         self.records = {}
 
@@ -183,13 +212,21 @@ def instrument(w: World):
         w.field_log.append(r)
         w.field_bodies.append(self.body)
         return r
+    real_safe = epydoc2stan.safe_to_stan
+
+    def safe(*a, **kw):
+        r = real_safe(*a, **kw)
+        w.stan_log.append(r)
+        return r
     model.Documentable.report = report
     epydoc2stan.Field.format = fmt
+    epydoc2stan.safe_to_stan = safe
     try:
         yield
     finally:
         model.Documentable.report = real_report
         epydoc2stan.Field.format = real_format
+        epydoc2stan.safe_to_stan = real_safe
 
 
 # ------------------------------------------------------------------ exceptions / tokens
@@ -244,6 +281,17 @@ def flatten_safely(stan) -> Tuple[Optional[str], Optional[str]]:
         return None, type(inner).__name__
 
 
+def safe_text(st) -> Optional[str]:
+    from pydoctor.stanutils import flatten_text
+    try:
+        with quiet():
+            return flatten_text(st)
+    except Hang:
+        raise
+    except BaseException:
+        return None
+
+
 def canon_stan(st, role: Optional[str] = None) -> str:
     from pydoctor import epydoc2stan
     from twisted.web.template import Tag
@@ -251,6 +299,10 @@ def canon_stan(st, role: Optional[str] = None) -> str:
         return "N"
     if st is epydoc2stan.BROKEN:
         return "broken"
+    if isinstance(st, str):
+        return "sigbroken" if st == "(...)" else "str?"
+    if isinstance(st, Tag) and st.tagName == "code" and not st.attributes and safe_text(st) == "":
+        return "code"
     if isinstance(st, Tag):
         cls = st.attributes.get("class")
         kids = st.children
@@ -275,6 +327,10 @@ def canon_stan(st, role: Optional[str] = None) -> str:
 
 
 # ------------------------------------------------------------------ stubs (fault stream)
+
+TAG_NAMES = ["warns", "rtype", "type", "ivar"]
+TAG_CODE = {"warns": 0, "rtype": 1, "type": 2, "ivar": 3}
+
 
 def default_pd(k: int) -> Dict[str, Any]:
     return {"S": "r%d" % k, "N": "r", "W": "n", "T": "e", "F": []}
@@ -315,8 +371,10 @@ def stub_classes():
         def __init__(self, w: World, k: int) -> None:
             self.w, self.k = w, k
             self.spec = w.spec.get("pd", {}).get(k) or default_pd(k)
-            fields = [MField("rtype" if t else "warns", None, StubPD(w, bk), ln) for (t, bk, ln) in self.spec["F"]]
+            fields = [MField(TAG_NAMES[f[0]], None if len(f) < 4 or f[3] is None else NAMES[f[3]].rsplit(".", 1)[-1],
+                             StubPD(w, f[1]), f[2]) for f in self.spec["F"]]
             ParsedDocstring.__init__(self, fields)
+            self.warnings: List[str] = []
 
         @property
         def has_body(self) -> bool:
